@@ -11,5 +11,6 @@ CONSTANTS
  MaxOps = 1000
  Staged = TRUE
  InitAll = {}
+ SnapModes = {"copy"}
  DelUnderShadow = FALSE
 CHECK_DEADLOCK FALSE
